@@ -113,6 +113,7 @@ def run_check(mod, ctx):
     }
     crashes = []
     walls = []
+    sigcount = {}
 
     def absorb(res):
         if "_crash" in res:
@@ -121,14 +122,19 @@ def run_check(mod, ctx):
         walls.append(res.get("_wall", 0.0))
         merged["evaluations"] += res.get("evaluations", 0)
         merged["nontrivial"] += res.get("nontrivial", 0)
-        merged["violations"].extend(res.get("violations", ()))
+        for v in res.get("violations", ()):
+            n = sigcount[v["signature"]] = sigcount.get(v["signature"], 0) + 1
+            if n <= 300:          # keep the evidence small; every violation is still counted
+                merged["violations"].append(v)
         for s in res.get("samples", ()):
             if len(merged["samples"]) < 400:
                 merged["samples"].append(s)
         for k, v in res.get("outcomes", {}).items():
             merged["outcomes"][k] = merged["outcomes"].get(k, 0) + v
         for k, v in res.get("counters", {}).items():
-            if isinstance(v, (int, float)):
+            if k.startswith("max_") and isinstance(v, (int, float)):
+                merged["counters"][k] = max(merged["counters"].get(k, 0), v)
+            elif isinstance(v, (int, float)):
                 merged["counters"][k] = merged["counters"].get(k, 0) + v
             else:   # max-merge for non-additive facts
                 merged["counters"][k] = v
@@ -173,7 +179,7 @@ def run_check(mod, ctx):
         if sig in open_by_sig:
             k = open_by_sig[sig]
             lines.append("KNOWN-FINDING: property=%s %s [%s; %d case(s) in this run, e.g. %s]" % (
-                mod.ID, k["what"], k["id"], len(vs), jdump(vs[0]["case"])[:200]))
+                mod.ID, k["what"], k["id"], sigcount.get(sig, len(vs)), jdump(vs[0]["case"])[:200]))
             continue
         exit_code = 1
         vdir = os.path.join(os.environ.get("VERIF_VIOLATIONS_DIR") or os.path.join(VERIF, "violations"), mod.ID)
@@ -204,7 +210,7 @@ def run_check(mod, ctx):
             with open(path, "w") as f:
                 f.write(jdump(body, indent=1))
             lines.append("VIOLATION property=%s replay=%s" % (mod.ID, path))
-            lines.append("  signature=%s cases=%d fresh-process-replay=%s" % (sig, len(vs), conf))
+            lines.append("  signature=%s cases=%d fresh-process-replay=%s" % (sig, sigcount.get(sig, len(vs)), conf))
             lines.append("  case=%s" % jdump(v["case"])[:600])
             lines.append("  detail=%s" % jdump(v.get("detail"))[:600])
     # an open known finding that no longer shows is only reported as a note
@@ -213,12 +219,12 @@ def run_check(mod, ctx):
             lines.append("note: known finding %s (%s) did not occur in this run" % (k["id"], sig))
 
     wall = time.time() - t0
-    write_evidence(mod, ctx, plan, merged, groups, open_by_sig, wall, rnd)
+    write_evidence(mod, ctx, plan, merged, groups, open_by_sig, wall, rnd, sigcount)
     for l in lines:
         print(l)
     print("%s %s: units=%d evaluations=%d nontrivial=%d violations=%d (unlisted signatures=%d) wall=%.1fs" % (
         mod.ID, ctx.tier, len(units), merged["evaluations"], merged["nontrivial"],
-        len(merged["violations"]), len(new_sigs), wall))
+        sum(sigcount.values()), len(new_sigs), wall))
     return exit_code
 
 
@@ -238,7 +244,7 @@ def confirm(pid, path):
     return "error: " + (out.stderr or out.stdout)[-300:]
 
 
-def write_evidence(mod, ctx, plan, merged, groups, open_by_sig, wall, rnd):
+def write_evidence(mod, ctx, plan, merged, groups, open_by_sig, wall, rnd, sigcount):
     samples = merged["samples"]
     if len(samples) > 8:
         samples = rnd.sample(samples, 8)
@@ -269,8 +275,8 @@ def write_evidence(mod, ctx, plan, merged, groups, open_by_sig, wall, rnd):
         "coverage": cov,
         "assumptions": plan.get("assumptions", []),
         "wall_s": round(wall, 2),
-        "violations": sum(len(v) for s, v in groups.items() if s not in open_by_sig),
-        "known_findings_seen": {s: len(v) for s, v in groups.items() if s in open_by_sig},
+        "violations": sum(sigcount.get(s, len(v)) for s, v in groups.items() if s not in open_by_sig),
+        "known_findings_seen": {s: sigcount.get(s, len(v)) for s, v in groups.items() if s in open_by_sig},
     }
     if os.environ.get("VERIF_NO_EVIDENCE"):
         return
